@@ -204,11 +204,14 @@ def _transfer_allws(ex, st, lst, lo, hi, pred):
     """NOMATCH(pred, list, lo, hi) is known.  If every element that does not satisfy `pred` is a whitespace token (decided
     by running the real closure on an arbitrary element), then each pristine segment of list[lo:hi] consists of
     whitespace tokens: recorded in base coordinates (ALLWSF), so that the fact survives modifications of the list."""
+    if not getattr(ex.contract, 'uses_allws', False):
+        return          # only contracts whose invariants speak about ALLWS need the transfer
+    from pyvc.heap import _NeedCase
     try:
         ka = ex.split_at(st, lst, lo)
         kb = ex.split_at(st, lst, hi)
         ka = ex.split_at(st, lst, lo)
-    except OutsideSubset:
+    except (OutsideSubset, _NeedCase):
         return
     for it in st.lists[lst.lid][ka:kb]:
         if it[0] != 'seg':
@@ -591,9 +594,12 @@ class _GroupTokensCallsite:
                         seg = dict(ex.segs(s2)[it[1]])
                         seg['uni'] = dict(seg['uni'], parent=grp)
                         ex.segs(s2)[it[1]] = seg
-                from pyvc.heap import bump
+                from pyvc.heap import bump, snapshot_id
+                snap_before = snapshot_id(s2, lst)
                 s2.lists[lst.lid] = items[:ka] + (('el', grp),) + items[kb:]
                 bump(s2, lst.lid)
+                # positions below `start` hold the same elements as before: first-match summaries there stay valid
+                ex.transfer_nomatch_prefix(s2, snap_before, snapshot_id(s2, lst), zs)
                 # ghost updates declared by the caller's contract for this call site (evaluated in its frame, in the
                 # state after the call; ghost code cannot change program state)
                 for gname, gexpr in ((getattr(ex.contract, 'callsite_ghost', None) or {}).get('group_tokens', {})).items():
